@@ -55,7 +55,7 @@ def engine_hash():
     global _engine_hash
     if _engine_hash is None:
         h = hashlib.sha256()
-        for base in ('engine', 'lang'):
+        for base in ('engine', 'lang', 'checks', 'units', 'buf', 'gen'):
             top = os.path.join(ROOT, base)
             if not os.path.isdir(top):
                 continue
@@ -102,12 +102,20 @@ def build_unit(src, flags=(), text=None, opt='-O1', cxx=None):
     return binp, time.time() - t, False
 
 
+def _big_stack():
+    import resource
+    try:
+        resource.setrlimit(resource.RLIMIT_STACK, (1 << 30, resource.RLIM_INFINITY))
+    except Exception:
+        pass
+
+
 def run_shard(binp, tier, i, n, deadline, env=None, extra=()):
     cmd = [binp, tier, str(i), str(n), str(deadline)] + list(extra)
     e = dict(os.environ)
     if env:
         e.update(env)
-    r = sh(cmd, stdout=subprocess.PIPE, stderr=subprocess.PIPE, text=True, errors='replace', env=e)
+    r = sh(cmd, stdout=subprocess.PIPE, stderr=subprocess.PIPE, text=True, errors='replace', env=e, preexec_fn=_big_stack)
     return r.returncode, r.stdout, r.stderr
 
 
@@ -185,7 +193,7 @@ def classify(pid, sig, known):
 
 
 def replay_case(binp, case, tier='quick'):
-    r = sh([binp, 'case', case, tier], stdout=subprocess.PIPE, stderr=subprocess.PIPE, text=True, errors='replace')
+    r = sh([binp, 'case', case, tier], stdout=subprocess.PIPE, stderr=subprocess.PIPE, text=True, errors='replace', preexec_fn=_big_stack)
     vs = sorted(l for l in r.stdout.splitlines() if l.startswith('V\t'))
     return r.returncode, vs
 
